@@ -1,7 +1,7 @@
 //@ variant: ux DEFS=-DUT_LEG_UX
 //@ variant: tls DEFS=-DUT_LEG_TLS
 //@ tu: libxcm/tp/tls/xcm_tp_utls.c
-//@ flags: --max-field-sensitivity-array-size 1024
+//@ flags: --max-field-sensitivity-array-size 700
 //@ defs: $DEFS
 //@ enforce: utls_get_cnt
 //@ replace: xcm_tp_socket_get_cnt
